@@ -25,17 +25,17 @@ use rustc_middle::mir::{
     self, AggregateKind, BasicBlockData, Body, Const, ConstOperand, Operand, Place,
     PlaceElem, Rvalue, StatementKind, TerminatorKind,
 };
-use rustc_middle::ty::print::{with_no_trimmed_paths, with_resolve_crate_name, PrintTraitRefExt};
+use rustc_middle::ty::print::{with_no_trimmed_paths, with_no_visible_paths, with_resolve_crate_name, PrintTraitRefExt};
 use rustc_middle::ty::{self, Instance, Ty, TyCtxt, TypingEnv};
 use rustc_span::Span;
 
 struct Cb;
 
 fn dps(tcx: TyCtxt<'_>, did: DefId) -> String {
-    with_resolve_crate_name!(with_no_trimmed_paths!(tcx.def_path_str(did)))
+    with_resolve_crate_name!(with_no_visible_paths!(with_no_trimmed_paths!(tcx.def_path_str(did))))
 }
 fn tys(t: Ty<'_>) -> String {
-    with_resolve_crate_name!(with_no_trimmed_paths!(format!("{}", t)))
+    with_resolve_crate_name!(with_no_visible_paths!(with_no_trimmed_paths!(format!("{}", t))))
 }
 
 fn span_loc(tcx: TyCtxt<'_>, sp: Span) -> (String, usize) {
@@ -444,7 +444,7 @@ fn dump_fn<'tcx>(tcx: TyCtxt<'tcx>, ldid: LocalDefId) -> Option<(String, J)> {
             if tcx.impl_opt_trait_ref(imp).is_some() {
                 let tr = tcx.impl_trait_ref(imp).instantiate_identity().skip_norm_wip();
                 o.push(("trait".into(), J::Str(dps(tcx, tr.def_id))));
-                o.push(("traitref".into(), J::Str(with_resolve_crate_name!(with_no_trimmed_paths!(format!("{}", tr.print_only_trait_path()))))));
+                o.push(("traitref".into(), J::Str(with_resolve_crate_name!(with_no_visible_paths!(with_no_trimmed_paths!(format!("{}", tr.print_only_trait_path())))))));
             }
         } else if let Some(tr) = tcx.trait_of_assoc(did) {
             // default method in trait
@@ -600,7 +600,7 @@ fn dump_impls<'tcx>(tcx: TyCtxt<'tcx>) -> J {
         if tcx.impl_opt_trait_ref(did).is_some() {
             let tr = tcx.impl_trait_ref(did).instantiate_identity().skip_norm_wip();
             o.push(("trait".into(), J::Str(dps(tcx, tr.def_id))));
-            o.push(("traitref".into(), J::Str(with_resolve_crate_name!(with_no_trimmed_paths!(format!("{}", tr.print_only_trait_path()))))));
+            o.push(("traitref".into(), J::Str(with_resolve_crate_name!(with_no_visible_paths!(with_no_trimmed_paths!(format!("{}", tr.print_only_trait_path())))))));
         }
         let (file, line) = span_loc(tcx, tcx.def_span(did));
         o.push(("file".into(), J::Str(file)));
